@@ -119,6 +119,21 @@ func runC05(req *radius.Packet, maxErr int, skip bool, hist [][]byte, slow bool)
 	if client != nil && (int(req.Identifier)+len(hist))%2 == 0 {
 		priorExchangeC05(client)
 	}
+	// … and for every third case THIS request has been exchanged before, in this process, with a peer that sent
+	// the datagram of the history that is authentic for it (if there is one): whatever the library remembers of a
+	// verified reply must not make a later forgery with the same authenticator fields pass
+	if (int(req.Identifier)+2*len(hist))%3 == 0 {
+		if wire, err := req.Encode(); err == nil {
+			for _, d := range hist {
+				if len(d) >= 20 && len(d) <= 4096 && radius.IsAuthenticResponse(d, wire, req.Secret) {
+					if _, perr := radius.Parse(d, req.Secret); perr == nil {
+						primeExchangeC05(req, d)
+					}
+					break
+				}
+			}
+		}
+	}
 	ctx, cancel := context.WithTimeout(context.Background(), 8*time.Second)
 	defer cancel()
 	done := make(chan c05res, 1)
@@ -259,6 +274,26 @@ func evalC05(op string, args []string) string {
 		return r2
 	}
 	return r
+}
+
+// primeExchangeC05: one complete exchange of req with a peer that answers with d (result ignored)
+func primeExchangeC05(req *radius.Packet, d []byte) {
+	defer func() { recover() }()
+	peer, err := net.ListenUDP("udp4", &net.UDPAddr{IP: net.IPv4(127, 0, 0, 1)})
+	if err != nil {
+		return
+	}
+	defer peer.Close()
+	go func() {
+		buf := make([]byte, 8192)
+		peer.SetReadDeadline(time.Now().Add(time.Second))
+		if _, addr, err := peer.ReadFromUDP(buf); err == nil {
+			peer.WriteToUDP(d, addr)
+		}
+	}()
+	ctx, cancel := context.WithTimeout(context.Background(), time.Second)
+	defer cancel()
+	(&radius.Client{}).Exchange(ctx, req, peer.LocalAddr().String())
 }
 
 // priorExchangeC05 lets the client complete one exchange with a well-behaved peer (result ignored).
@@ -566,6 +601,18 @@ func genC05(g *Gen, tier string, emit func(op string, args ...string)) {
 				d = g.c05Datagram(1+g.Intn(15), i, wire, secret, reqCode, hist)
 			}
 			hist = append(hist, d)
+		}
+		// a tampered copy of the genuine reply right before it: the Code octet or an attribute octet changed, the
+		// authenticator fields untouched (what an attacker who has SEEN the reply of an earlier, identical request
+		// can send; see the priming exchange in runC05)
+		if genuineAt >= 1 && special < 0 && c%4 == 1 && len(hist[genuineAt]) <= 4096 {
+			t := append([]byte{}, hist[genuineAt]...)
+			if len(t) > 22 && g.Bool() {
+				t[22+g.Intn(len(t)-22)] ^= byte(1 + g.Intn(255))
+			} else {
+				t[0] ^= byte(g.Pick(1, 2, 1, 7))
+			}
+			hist[genuineAt-1] = t
 		}
 		budget := itoa(maxErr)
 		if c%16 == 11 {
